@@ -390,3 +390,44 @@ pub fn gen_c05(r: &mut Rng, id: u64, thorough: bool) -> Value {
     ops.push(json!({"op": "scan", "k": null, "c": null, "f": null, "off": null, "lim": null, "ord": true, "desc": false}));
     json!({"id": id, "kind": "store", "prop": "C05", "file": true, "params": "busy_timeout=100&max_connections=6", "profile": "default", "ops": ops})
 }
+
+/// C06 (statement faults): every mutating call x every fault point, each followed by a full dump
+pub fn gen_c06(r: &mut Rng, id: u64, thorough: bool) -> Value {
+    let mut ops = vec![json!({"op": "session", "s": 0, "txn": false})];
+    let maxtags = if thorough { 8 } else { 4 };
+    let mk_tags = |r: &mut Rng, n: usize| -> Value { Value::Array((0..n).map(|_| tag(r)).collect()) };
+    let names = ["n1", "n2", "n3", "n4"];
+    for n in names.iter().take(2 + r.below(3)) {
+        let nt = r.below(maxtags + 1);
+        ops.push(json!({"op": "insert", "s": 0, "k": 2, "c": "c1", "n": n, "v": value(r), "t": mk_tags(r, nt), "e": null}));
+    }
+    let dump = json!({"op": "fetch_all", "s": 0, "k": null, "c": null, "f": null, "lim": null, "ord": true, "desc": false});
+    let rounds = if thorough { 24 } else { 10 };
+    for _ in 0..rounds {
+        let n = *r.pick(&names);
+        let nt = r.below(maxtags + 1);
+        let fault = match r.below(7) {
+            0 | 1 | 2 => json!({"at": "tag", "k": r.below(maxtags + 1)}),
+            3 => json!({"at": "tagdel"}),
+            4 => json!({"at": "item"}),
+            5 => json!({"at": "itemupd"}),
+            _ => json!({"at": "itemdel"}),
+        };
+        let fault = if r.chance(1, 6) { Value::Null } else { fault };
+        let op = match r.below(8) {
+            0..=2 => json!({"op": "insert", "s": 0, "k": 2, "c": "c1", "n": n, "v": value(r), "t": mk_tags(r, nt), "e": null, "fault": fault}),
+            3..=5 => json!({"op": "replace", "s": 0, "k": 2, "c": "c1", "n": n, "v": value(r), "t": mk_tags(r, nt), "e": null, "fault": fault}),
+            6 => json!({"op": "remove", "s": 0, "k": 2, "c": "c1", "n": n, "fault": fault}),
+            _ => json!({"op": "remove_all", "s": 0, "k": 2, "c": "c1", "f": if r.chance(1, 2) { root_filter(r, 1) } else { Value::Null }, "fault": fault}),
+        };
+        ops.push(op);
+        ops.push(dump.clone());
+        // the session and the store stay fully usable after a failed call
+        if r.chance(1, 3) { ops.push(json!({"op": "count", "s": 0, "k": 2, "c": "c1", "f": null})); }
+    }
+    // reopen-equivalent: a fresh session sees the same
+    ops.push(json!({"op": "drop", "s": 0}));
+    ops.push(json!({"op": "session", "s": 1, "txn": false}));
+    ops.push(json!({"op": "fetch_all", "s": 1, "k": null, "c": null, "f": null, "lim": null, "ord": true, "desc": false}));
+    json!({"id": id, "kind": "store", "prop": "C06", "file": true, "profile": "default", "ops": ops})
+}
